@@ -214,6 +214,20 @@ def extract(repo):
         for v in file_statics(text):
             if re.search(r"\b" + re.escape(v) + r"\b", body_):
                 state.append(f"{fname}:{v} (used by {fn})")
+    # ---- the increment a reader works with is the one it was handed: no function of the path assigns its increment parameter,
+    # and the id ReadEntityRef looks up is made of the number read from the stream in this call and that parameter, nothing else
+    reassigned = []
+    for text, fname, sig in path_fns:
+        body_ = _body(text, sig)
+        fn = re.search(r"(\w+(?:::\w+)?)\s*\($", sig[:sig.index("(") + 1]).group(1)
+        for par in ("addFileId", "idIncr"):
+            if re.search(r"\b" + par + r"\s*(?:=(?!=)|\+=|-=|\+\+|--)", body_) or re.search(r"(?:\+\+|--)\s*" + par + r"\b", body_) \
+                    or re.search(r"&\s*" + par + r"\b", body_):
+                reassigned.append(f"{fn}:{par}")
+    rb = _body(inst, "SDAI_Application_instance * ReadEntityRef( istream & in, ErrorDescriptor * err, const char * tokenList,")
+    id_writes = [re.sub(r"\s+", "", m.group(0)) for m in re.finditer(r"(?:int\s+id\s*=[^;]*|in\s*>>\s*id|\bid\s*(?:=(?!=)|\+=|-=)[^;]*|\+\+id|id\+\+)\s*;", rb)]
+    if id_writes != ["intid=-1;", "in>>id;", "id+=addFileId;"] or not re.search(r"instances->FindFileId\(\s*id\s*\)", rb):
+        raise ValueError(f"ReadEntityRef: the looked-up id is no longer `number read` + addFileId: {id_writes}")
     order = ["instAttr", "attrRef", "attrAggr", "attrSelect", "redef", "aggrEntityElem", "aggrSelectElem", "selectContent",
              "selectRef", "complexPart", "refAdd", "genSelectRef", "genSelectNested", "genSelectAggr"]
     L = ["-- GENERATED by tools/extract.d/threading.py from STEPattribute.cc, sdaiApplication_instance.cc, STEPaggrEntity.cc,",
@@ -225,5 +239,9 @@ def extract(repo):
          "/-- variables through which a reader of the reference path could carry state from one reference (or file) to the next:",
          "    non-const `static` locals of its functions and file-scope statics they use -/",
          "def readerState : List String := [" + ", ".join('"' + x + '"' for x in sorted(set(state))) + "]", "",
+         "/-- functions of the path that assign (or take the address of) the increment they were handed -/",
+         "def incrementReassigned : List String := [" + ", ".join('"' + x + '"' for x in sorted(set(reassigned))) + "]", "",
+         "/-- every write of the id `ReadEntityRef` looks up, in order (shape checked: initialised, read from the stream, `+= addFileId`) -/",
+         "def refIdWrites : List String := [" + ", ".join('"' + x + '"' for x in id_writes) + "]", "",
          "end StepModel.Generated", ""]
     return {"ThreadingGen.lean": "\n".join(L)}
